@@ -444,6 +444,47 @@ func checkC11(c *Check) {
 	}
 	c.applyDiscipline(fns)
 	c.applyErrors(fns)
+	// isolation first: in Deploy the namespace and its network policies are applied, successfully, before any workload
+	// object (deployment, service, ingress) — a failure part-way never leaves pods running in a namespace without them
+	{
+		dep := l.Func(kubePkg, "client", "Deploy")
+		c.Analysed(fnName(dep))
+		var ns, np ssa.CallInstruction
+		var workloads []ssa.CallInstruction
+		for _, call := range callsIn(dep, false) {
+			g := call.Common().StaticCallee()
+			if g == nil {
+				continue
+			}
+			switch g.Name() {
+			case "applyNS":
+				ns = call
+			case "applyNetPolicies":
+				np = call
+			case "applyDeployment", "applyService", "applyIngress":
+				workloads = append(workloads, call)
+			}
+		}
+		ok := ns != nil && np != nil && len(workloads) >= 3
+		why := "Deploy does not apply namespace, network policies and workloads"
+		if ok {
+			for _, w := range workloads {
+				wl, nl, pl := liftTo(dep, w), liftTo(dep, ns), liftTo(dep, np)
+				if wl == nil || nl == nil || pl == nil || !instrDominates(nl, wl) || !instrDominates(pl, wl) {
+					ok = false
+					why = calleeShort(w) + " can run before the namespace / the lease's network policies are in place: if a later step fails the workload stays without isolation"
+					continue
+				}
+				for _, pre := range []ssa.CallInstruction{ns, np} {
+					if pc, isC := pre.(*ssa.Call); isC && pc.Parent() == w.Parent() && !okEdgeAt(w.Block(), pc) {
+						ok = false
+						why = calleeShort(w) + " runs although " + calleeShort(pre) + " may have failed"
+					}
+				}
+			}
+		}
+		c.Ob("R8", "Deploy applies namespace and network policies, successfully, before any workload object", dep.Pos(), ok, why)
+	}
 }
 
 // applyErrors (R8): a failed write of a generated object is reported. In the apply functions the error result of
